@@ -10,6 +10,19 @@ BASE_NOTE = ('Trusted: Lean 4.33 kernel (axioms propext, Classical.choice, Quot.
              'equality with the code is checked on exactly representable inputs). ')
 
 CLAIMED = {
+    'C13': dict(
+        text=('Lean word-level model of the CAMx formats whose files are a plain sequence of equal-sized records (one3d, '
+              'humidity, vertical diffusivity, temperature, height/pressure): encoder, the memory-mapped readers\' inference '
+              '(records of cells+4 words, slabs per step from the first change of (time, date)) and the content view a '
+              'record-by-record reader presents. Theorem mm_decode_encode: for every well-formed file with at least two steps, '
+              'any grid size, layer count and payload, and all three layouts, the memory-mapped view equals the content view '
+              '(chunk_records, leading_eq are its two halves); single_step_rejected shows the domain boundary. For the gridded '
+              'average family the corresponding theorem is Camx.decodeMM_encode (C08/C09). Correspondence: reference-encoded '
+              'bytes (= Lean encoder) read by BOTH library readers of each format, each compared with the model and with the '
+              'other (dimension lengths, float data as bits, time flags).'),
+        note=BASE_NOTE + 'the record-based (Read) readers are compared, not modelled: their HHMM time arithmetic is exercised on every case, not proved; wind is not covered; uamiv record reader only on the files it is meaningful for.',
+        technique='Lean 4 proof (chunking/regrouping lemmas over framed records) + model/implementation correspondence for both reader families + reader-vs-reader oracle',
+        design='§7 C08-C09-C13-C14'),
     'C18': dict(
         text=('Lean word-level model of GEOS-Chem binary punch files (two header records, three Fortran records per data block) '
               'with encoder, independent decoder and the first-repetition rule by which bpch1 finds the unmarked time steps; '
